@@ -19,6 +19,7 @@ EXPLANATION = (
     "against a constant collection that folds to a subset of the interpreter's assignment operators "
     "(token.EXACT_TOKEN_TYPES ending in '=' minus comparisons).  R04.3 (=R06.1): the definition parser pairs default "
     "values with exactly posonlyargs + args.  R04.4 (=R07.11): the import merger decides 'already imported' on (name, alias) pairs.  R04.5: the from-import of the inlined name is stripped only under the caller's `remove` flag.  R04.6: the offsets that cut the inlined assignment out come from a line table of the substituted text.  The text of the inlined code is not decided."
+    ' R04.6: the offsets that cut the inlined assignment out come from a line table of the substituted text.'
 )
 ASSUMPTIONS = ["alias tracking is flow-insensitive (x = self.attr makes x an alias for the whole method)",
                "dict()/list()/set()/.copy()/sorted()/slicing create copies"]
